@@ -183,10 +183,16 @@ class DSession:
     def _op(self, j, p):
         return self.instance.jobs[j - 1][p - 1]
 
-    def dispatch(self, j, p, m, none=False):
+    def dispatch(self, j, p, m, none=False, foreign=False):
         """m is the 1-based machine id; m = -1 stands for machine_id=None on
-        a flexible operation; `none` passes None for a single-machine one."""
+        a flexible operation; `none` passes None for a single-machine one.
+        foreign: the request is made with a look-alike Operation that was never attached to the instance (same machines
+        and duration as jobs[j][p]); it is "not the next operation of its job" and is logged with position 0."""
         op = self._op(j, p)
+        if foreign:
+            from job_shop_lib import Operation
+            op = Operation(list(op.machines) if len(op.machines) > 1 else op.machines[0], op.duration)
+            p = 0
         if none or m == -1:
             out, _ = _outcome(lambda: self.dispatcher.dispatch(op))
         else:
